@@ -16,7 +16,7 @@ from mc import codegen
 from mc import world as W
 from mc.vloop import Running
 
-HORIZON = 20000
+HORIZON = 6000
 
 
 class ReplayDivergence(RuntimeError):
